@@ -116,6 +116,10 @@ class ClauseRunner(object):
         except Inconclusive:
             # a wall-clock limit was hit: neither a violation nor a pass; counted, never shrunk
             st["inconclusive"] = st.get("inconclusive", 0) + 1
+            dbg = os.environ.get("VERIF_DEBUG_INCONCLUSIVE")
+            if dbg:
+                with open(dbg, "a", encoding="utf8") as f:
+                    f.write(json.dumps({"clause": self.clause.name, "case": case}, ensure_ascii=False, default=str) + "\n")
             return None
         except Fail as f:
             if f.sub in self.excluded:
